@@ -184,6 +184,22 @@ TEMPLATE_EXPR = {
 }
 
 
+# (name, template around the expression E) — E is evaluated exactly once per iteration in each of them, except in
+# nested-filter (twice: in the iterable, which is this loop's scope, and in the filter; equal values print it once)
+PLACEMENTS = [
+    ("plain", "{{ E }}"),
+    ("if", "{% if true %}{{ E }}{% endif %}"),
+    ("with", "{% with w = E %}{{ w }}{% endwith %}"),
+    ("set-block", "{% set w %}{{ E }}{% endset %}{{ w }}"),
+    ("filter-block", "{% filter upper %}{{ E }}{% endfilter %}"),
+    ("call-block", "{% call wrap() %}{{ E }}{% endcall %}"),
+    ("nested-else", "{% for y in [] %}{{ y }}{% else %}{{ E }}{% endfor %}"),
+    ("nested-else-deep", "{% if true %}{% for y in () %}-{% else %}{% if true %}{{ E }}{% endif %}{% endfor %}{% endif %}"),
+    ("nested-iter", "{% for y in [E] %}{{ y }}{% endfor %}"),
+    ("nested-filter", "{% for y in [E] if (E)|string == y|string %}{{ y }}{% endfor %}"),
+]
+
+
 def fmt(o):
     if o == "undef":
         return "U"
@@ -322,27 +338,33 @@ def run_e2e(ctx, res, jinja2):
     for t in range(n_templates):
         pat = [rng.choice(QUERIES) for _ in range(rng.randrange(1, 5))]
         filt = rng.choice([None, None, "x % 3 != 0", "x > 11", "x < 0"])
-        body = "|".join("{{ %s }}" % TEMPLATE_EXPR[q] for q in pat)
-        src = "{%% for x in xs%s %%}%s;{%% else %%}E{%% endfor %%}" % (f" if {filt}" if filt else "", body)
+        # where the attribute is read: every place that belongs to the scope of THIS loop — also the else branch, the
+        # iterable and the filter of a nested loop, and nested non-loop scopes — must see this loop's `loop`
+        places = [rng.choice(PLACEMENTS) if rng.random() < 0.45 else PLACEMENTS[0] for _ in pat]
+        places = [pl if not (pl[0] == "nested-filter" and q in ("cycle", "changed")) else PLACEMENTS[0] for pl, q in zip(places, pat)]
+        body = "|".join(pl[1].replace("E", TEMPLATE_EXPR[q]) for pl, q in zip(places, pat))
+        src = "{%% macro wrap() %%}{{ caller() }}{%% endmacro %%}{%% for x in xs%s %%}%s;{%% else %%}E{%% endfor %%}" % (
+            f" if {filt}" if filt else "", body)
+        upper = [pl[0] == "filter-block" for pl in places]
         for xs in (item_lists(ctx.pick(3, 5)) if t % 6 == 0 else [rng.choice(item_lists(5))]):
             passed = [x for x in xs if filt is None or eval(filt, {"x": x})]
             ops = build_ops(passed, pat, None, extra_next=0)
             # strip the after-exhaustion tail added by build_ops
             ops = ops[: len(passed) * (1 + len(pat))]
-            jobs.append((src, xs, passed, pat, ops, filt))
-    reqs = [[Atom("loop"), False, 0, passed, [enc_op(o) for o in ops]] for _, _, passed, _, ops, _ in jobs]
+            jobs.append((src, xs, passed, pat, ops, filt, upper))
+    reqs = [[Atom("loop"), False, 0, passed, [enc_op(o) for o in ops]] for _, _, passed, _, ops, _, _ in jobs]
     # with no loop filter and a list, the real loop is over a sized iterable
     for r, j in zip(reqs, jobs):
         if j[5] is None:
             r[1] = True
     replies = core.driver_batch(reqs)
-    for (src, xs, passed, pat, ops, filt), rep in zip(jobs, replies):
+    for (src, xs, passed, pat, ops, filt, upper), rep in zip(jobs, replies):
         spec = canon(rep[1][1])
         exp = ""
         i = 0
         for _ in passed:
             i += 1  # the next
-            exp += "|".join(fmt(spec[i + k]) for k in range(len(pat))) + ";"
+            exp += "|".join(fmt(spec[i + k]).upper() if upper[k] else fmt(spec[i + k]) for k in range(len(pat))) + ";"
             i += len(pat)
         if not passed:
             exp = "E"
@@ -404,7 +426,9 @@ def run_e2e(ctx, res, jinja2):
                 res.violate(f"C07:e2e:{envname}:recursive", f"recursive loop over {tree}: {got!r} != {expect(tree, 0)!r}",
                             {"src": rsrc, "tree": tree, "env": envname, "got": got})
     return {"renders": renders, "distinct": len(distinct), "templates": n_templates, "samples": samples,
-            "rule": (f"{n_templates} random loop bodies printing 1-4 loop attributes, with/without a loop filter and an "
+            "rule": (f"{n_templates} random loop bodies printing 1-4 loop attributes, each read directly or from a nested scope of the "
+                     "same loop (if, with, set block, filter block, call block, else branch / iterable / filter of a nested loop), "
+                     "with/without a loop filter and an "
                      "else branch, rendered in sync and async environments over lists/generators/async generators; "
                      "unsized iterables; random recursive trees (depth <= 4)")}
 
